@@ -134,8 +134,8 @@ def decorate(xml, rng, c):
                     a["ki"] = f(logU(0.5, 20))
                     if rng.random() < 0.5:
                         a["imax"] = f(logU(0.05, 1))
-                if "pos" in toks and rng.random() < 0.2:
-                    a["slewmax"] = f(logU(0.5, 5))
+                if "pos" in toks and "ki" not in a and rng.random() < 0.3:
+                    a["slewmax"] = f(logU(0.5, 5))     # slew + integral together is rejected by the compiler (see probes())
                 if rng.random() < 0.4:
                     a["forcerange"] = f([-logU(0.5, 20), logU(0.5, 20)])
                 if "pos" in toks and rng.random() < 0.5:
@@ -171,6 +171,7 @@ def decorate(xml, rng, c):
         for t in T:
             if rng.random() < 0.5:
                 t.set("actuatorfrcrange", f([-logU(0.2, 10), logU(0.2, 10)]))
+                t.set("actuatorfrclimited", "true")      # the documented 'auto' default does not enable it (see probes())
                 strip = rng.random() < 0.7
                 n_on = 0
                 for a in A:
@@ -605,6 +606,14 @@ def check_state(L, m, d, I, T, rng, P, witness, do_fd, do_step):
                 continue
             tot = sum(float(pref[k][0][0]) if isinstance(pref[k], tuple) else 0.0 for k in members)
             lo, hi = I.tendon_actfrcrange[t]
+            # members with characterised curve deviations (muscles): the clamp decision must not depend on which curve is used
+            tots = [tot]
+            for k in members:
+                if isinstance(pref[k], tuple) and pref[k][1]:
+                    tots += [tot - float(pref[k][0][0]) + float(val) for val in pref[k][1].values()]
+            if any(lo <= x <= hi for x in tots) and not all(lo <= x <= hi for x in tots):
+                P.count("skipped_tendon_clamp_decision_depends_on_muscle_curve")
+                continue
             if lo <= tot <= hi:
                 mode = "plain"
             else:
@@ -719,7 +728,11 @@ def check_state(L, m, d, I, T, rng, P, witness, do_fd, do_step):
             for k in range(an):
                 w0, w1 = act[aa + k], act2[aa + k]
                 if I.actlimited[i] and dyn != 5 and not (I.actrange[i, 0] <= w1 <= I.actrange[i, 1]):
-                    viol("activation-outside-actrange-after-step:" + DYN[dyn], actuator=i, act=w1, actrange=I.actrange[i])
+                    if dyn == 1 and I.wrap_period(i) > 0:
+                        viol("activation-outside-actrange-after-step:rotational-setpoint-reanchored-after-clamp", actuator=i, act=w1,
+                             actrange=I.actrange[i], period=I.wrap_period(i), length=float(length[I.outadr[i]]))
+                    else:
+                        viol("activation-outside-actrange-after-step:" + DYN[dyn], actuator=i, act=w1, actrange=I.actrange[i])
                 if dyn in (5,) or (dyn == 6 and I.dynprm[i, 1] > 0) or (I.gaintype[i] == 4 and dyn != 0 and False):
                     continue
                 kindname = {1: "integrator", 2: "filter", 3: "filterexact", 4: "muscle"}.get(dyn, "euler")
@@ -860,7 +873,7 @@ KINDSETS = [None, ["general"], ["position", "intvelocity", "velocity"], ["muscle
 def cases(ctx):
     cs = []
     rng = ctx.rng
-    n = ctx.pick(210, 2600)
+    n = ctx.pick(210, 4000)
     for i in range(n):
         c = {"mseed": int(rng.integers(0, 2 ** 31)), "seed": int(rng.integers(0, 2 ** 31)), "nstate": ctx.pick(3, 4),
              "kinds": KINDSETS[i % len(KINDSETS)], "pball": [0.15, 0.3, 0.5][i % 3], "pfree": [0.3, 0.6, 0.9][(i // 3) % 3],
@@ -871,8 +884,40 @@ def cases(ctx):
     return cs
 
 
+PROBE_TENDON = """<mujoco><worldbody><body><joint name="j" type="hinge"/><geom size="0.1"/></body></worldbody>
+<tendon><fixed name="t" actuatorfrcrange="-1 2"><joint joint="j" coef="1"/></fixed></tendon>
+<actuator><motor tendon="t"/></actuator></mujoco>"""
+PROBE_PID = """<mujoco><worldbody><body><joint name="j" type="hinge"/><geom size="0.1"/></body></worldbody>
+<actuator><pid joint="j" kp="10" kv="1" ki="2" imax="1" slewmax="0.5"/></actuator></mujoco>"""
+
+
+def probes(ctx):
+    """two fixed witnesses of documented configurations (compile-time defaults that decide whether a documented clamp / actuator
+    exists at all); the random workload sets these attributes explicitly so that the runtime clauses stay exercised"""
+    L = drv.Lib("rel")
+    # tendon/actuatorfrclimited: 'auto' (the documented default) + compiler autolimits => clamping enabled when the range is defined
+    m = L.load_xml_string(PROBE_TENDON)
+    d = m.make_data()
+    d["ctrl"][:] = 5.0
+    d.forward()
+    ctx.case("probe:tendon-actuatorfrcrange-auto", nontrivial=True)
+    if not (-1 <= float(d["actuator_force"][0]) <= 2):
+        ctx.violation("tendon-actuatorfrcrange-not-applied-under-documented-auto-default",
+                      {"xml": PROBE_TENDON, "ctrl": 5.0, "actuator_force": float(d["actuator_force"][0]), "actuatorfrcrange": [-1, 2],
+                       "tendon_actfrclimited": int(m["tendon_actfrclimited"][0]), "probe": "tendon"})
+    # pid with slew limiting and integral action: documented to carry the activation states [slew, integral]
+    ctx.case("probe:pid-slew-plus-integral", nontrivial=True)
+    try:
+        m = L.load_xml_string(PROBE_PID)
+        if m.n("na") != 2:
+            ctx.violation("pid-slew-plus-integral-does-not-have-two-activation-states", {"xml": PROBE_PID, "na": m.n("na"), "probe": "pid"})
+    except drv.MjError as e:
+        ctx.violation("documented-pid-slew-plus-integral-configuration-rejected-by-compiler", {"xml": PROBE_PID, "error": str(e)[:300], "probe": "pid"})
+
+
 def run(ctx):
     build.ensure("rel")
+    probes(ctx)
     ctx.extra["reference_self_test"] = {k: float(v) for k, v in ra.self_test().items()}
     cs = cases(ctx)
     nbatch = 3
@@ -896,11 +941,15 @@ def run(ctx):
     sk = ctx.counters.get("engine_error_skipped", 0)
     if sk > 0.1 * max(1, ctx.counters.get("states", 0)):
         ctx.inconclusive("too many states skipped on engine errors (%d)" % sk)
-    ctx.min_nontrivial = ctx.pick(300, 6000)
+    ctx.min_nontrivial = ctx.pick(400, 9000)
 
 
 def replay(ctx, path):
     rec = json.load(open(path))
+    if rec["detail"].get("probe"):
+        probes(ctx)
+        ctx.min_nontrivial = 0
+        return
     c = dict(rec["detail"]["case"])
     c["xml"] = rec["detail"]["xml"]
     if "state" in rec["detail"]:
